@@ -35,6 +35,7 @@ func C04(c *core.Ctx) {
 	for _, mb := range ms {
 		runMember(c, mb, rules, 64, checkRoot)
 	}
+	ruleMultiSel(c, ruleSet("A-REQ", "A-NOEXTRA"), 1, "differing only in required")
 	c.Floor("families", c.Counts["members"], 100, "family members")
 }
 
@@ -50,6 +51,7 @@ func C07(c *core.Ctx) {
 		runMember(c, mb, rules, 16, checkRoot)
 	}
 	runCompositions(c, rules, "Items")
+	ruleMultiSel(c, ruleSet("A-REJ", "A-NOEXTRA"), 2, "differing only in minItems", "differing only in maxItems")
 	c.Floor("families", c.Counts["members"], 80, "family members")
 }
 
